@@ -236,6 +236,7 @@ func checkC02(r *Report, known []Finding) {
 	c02StrategyTies(r)
 	c02MetaFindTie(r)  // core dispatch (UseNFA / UseDFA / UseBoth / UseBoundedBacktracker) vs Cx.MetaFind and regexp
 	c02MetaFind2Tie(r) // strategy loops (UseDigitPrefilter with its candidate budget, UseTeddy, IsMatch of UseBoundedBacktracker) vs Cx.MetaFind2 and regexp
+	c02GuardsTie(r)    // the strategy guards (AST predicates of meta/strategy.go, compile.go, reverse_inner.go) vs Cx.Guards, on every corpus pattern, the strategy templates and every inner node under every operator
 	replayKnownExamples(r, known, "C02")
 }
 
@@ -366,6 +367,15 @@ func c02RevSuffixTie(r *Report) {
 		ast, _ := syntax.Parse(p, syntax.Perl)
 		var hays [][]byte
 		hays = append(hays, nil, suffix, append(append([]byte("a"), suffix...), suffix...), append(append([]byte("a\n"), suffix...), '\n'))
+		// occurrences of the suffix that OVERLAP a rejected occurrence: suffix[:k] + suffix, bare and behind one byte ("ab"+"aba" = "ababa",
+		// "." + ".." = "..."): a candidate loop that resumes behind the rejected occurrence instead of one byte further never sees them
+		for k := 1; k < len(suffix); k++ {
+			ov := append(append([]byte(nil), suffix[:k]...), suffix...)
+			if !utf8.Valid(ov) || !utf8.Valid(suffix[len(suffix)-k:]) {
+				continue // cutting a multi-byte literal inside a rune gives ill-formed input: the recorded UTF-8 findings, not this tie's subject
+			}
+			hays = append(hays, ov, append([]byte("a"), ov...), append(append([]byte(nil), ov...), suffix[len(suffix)-k:]...))
+		}
 		for k := 0; k < 10; k++ {
 			h := GenHaystack(rng, ast, true)
 			if len(h) > 18 {
